@@ -87,3 +87,4 @@ def r6(cx):
 @rule("C02", "C02.R7", "rotation makes the outgoing WAL segment and the new segment's name durable")
 def r7(cx):
     rule_rotation_seals_segment(cx)
+    rule_one_memtable_per_segment(cx)
